@@ -154,6 +154,10 @@ func mixHash(a, b uint64) {
 //go:norace
 func yieldHook(site int) {
 	if !sActive {
+		if site == -2 {
+			runtime.Gosched() // a rewritten Lock loop outside a run: let the holder (a goroutine of the tree under test) proceed
+			return
+		}
 		if sCounting {
 			sCountN++
 			sRefOpHash = (sRefOpHash ^ uint64(site+1)) * 0x100000001b3
@@ -172,13 +176,15 @@ func yieldHook(site int) {
 		return
 	}
 	if site >= 0 {
-		sOpHash[sCur] = (sOpHash[sCur] ^ uint64(site+1)) * 0x100000001b3
 		if site < len(siteHit) {
 			siteHit[site]++
 		}
 		if sGran == granOp {
+			// operation-granular run (also the only mode for trees that start goroutines of their own:
+			// their goroutines reach this hook too and must not touch any per-task scheduler state)
 			return
 		}
+		sOpHash[sCur] = (sOpHash[sCur] ^ uint64(site+1)) * 0x100000001b3
 		if sGran == granFunc && site < len(siteFuncFirst) && !siteFuncFirst[site] {
 			return
 		}
